@@ -427,7 +427,8 @@ const T_OPS: &[&str] = &["+", "-", "*", "/", "%", "<<", ">>", "&", "|", "^", "**
 fn hole_values(kind: &str, thorough: bool) -> Vec<(String, Variable, &'static str)> {
     match kind {
         "int" => {
-            let mut v: Vec<i64> = vec![0, 1, -1, 2, 64, i64::MIN];
+            // 2^32 and 2^32 + 1: an exponent / shift amount / operand cut to 32 bits anywhere shows
+            let mut v: Vec<i64> = vec![0, 1, -1, 2, 64, i64::MIN, 4294967296, 4294967297];
             if thorough {
                 v.extend([3, 63, -64, i64::MAX]);
             }
